@@ -22,6 +22,7 @@ pub fn def() -> PropDef {
         flavours: &["tokio"],
         outcome: None,
         extra_profiles: &["C02", "C13", "C17"],
+        adapt: None,
     }
 }
 
